@@ -1,24 +1,26 @@
 (** Property C08 — fragments and complete strings round-trip through the writer.
-    Only statements, each closed by [exact]; proofs in Write/FormatBondingSpec.v.  All theorems are about
-    [format_bonding] as GENERATED from write_cgsmiles.py (Gen/WriterGen.v) on every run.
-    The full statement "format_bonding writes every descriptor of a list with its own order symbol" is NOT
-    provable for the current code ([C08_format_bonding_refuted]); proved instead: the exact function the code
-    computes ([C08_format_bonding_spec]), its agreement with the expected writing when only the first
-    descriptor is non-single ([C08_format_bonding_first_only_partial]), the universal form of the defect
-    ([C08_format_bonding_drops_prefix]).  The fragment-set and whole-string round trips are NOT proved:
-    they are decided per run on the implementation's outputs (Write/FragCheck.v) with the writer model
-    (Write/WriteImpl.v) tied to the code by the correspondence check. *)
+    Only statements, each closed by [exact]; proofs in Write/FormatBondingSpec.v and Write/FormatStripRound.v.
+    All theorems are about [format_bonding] as GENERATED from write_cgsmiles.py (Gen/WriterGen.v) on every run.
+    Since the fix 1a5deb0 in /repo (`bond_str += order_symb`) the FULL statement about format_bonding holds
+    ([C08_format_bonding_spec]; before, it was refuted by ["$a1";"$b2"] -> "=[$b]"), and composed with the
+    strip component's theorem [strip_correct] it gives the descriptor round trip for orders 1..3
+    ([C08_format_strip_roundtrip]); order 0 stays excluded (reader class zero_order_symbol, still open).
+    The fragment-set and whole-string round trips are NOT proved: they are decided per run on the
+    implementation's outputs (Write/FragCheck.v) with the writer model (Write/WriteImpl.v) tied to the code by
+    the correspondence check. *)
 From Coq Require Import String.
 From Coq Require Import List Ascii ZArith Bool.
-From CGV Require Import Base.PyBase Base.PyVal Base.NxGraph Gen.WriterGen Write.WriteImpl Write.FragDefs Write.FragCheck
-     Write.FormatBondingSpec.
+From CGV Require Import Base.PyBase Base.PyVal Base.NxGraph Gen.WriterGen Dialect.DialectImpl Write.WriteImpl Write.FragDefs
+     Write.FragCheck Write.FormatBondingSpec.
+From CGV Require Import Frag.NDict Frag.StripImpl Frag.FragText Write.FormatStripRound.
 Import ListNotations.
 Open Scope Z_scope.
 
-(** what the generated function computes on every descriptor list with orders 0..4 *)
+(** FULL: ANY descriptor list with orders 0..4 is written as the concatenation of sym ++ "[" ++ kind label ++ "]"
+    (sym empty for order 1) *)
 Theorem C08_format_bonding_spec : forall L : list (pystr * nat),
   Forall (fun klo => (snd klo <= 4)%nat) L ->
-  format_bonding (map (fun klo => mk_descr (fst klo) (snd klo)) L) = Ok (fb_spec L).
+  format_bonding (map (fun klo => mk_descr (fst klo) (snd klo)) L) = Ok (fb_expected L).
 Proof. exact format_bonding_spec. Qed.
 (** exact output for lists of order-1 descriptors *)
 Theorem C08_format_bonding_order1 : forall kls : list pystr,
@@ -28,29 +30,33 @@ Proof. exact format_bonding_order1. Qed.
 Theorem C08_format_bonding_single : forall kl o, (o <= 4)%nat ->
   format_bonding [mk_descr kl o] = Ok (symtext o ++ wrap kl).
 Proof. exact format_bonding_single. Qed.
-(** PARTIAL: correct (= the expected writing of Appendix A) when only the first descriptor is non-single;
-    missing for the full statement: lists with a non-single descriptor after the first (refuted below) *)
-Theorem C08_format_bonding_first_only_partial : forall kl o rest, (o <= 4)%nat ->
-  Forall (fun klo => snd klo = 1%nat) rest ->
-  format_bonding (map (fun klo => mk_descr (fst klo) (snd klo)) ((kl, o) :: rest)) = Ok (fb_expected ((kl, o) :: rest)).
-Proof. exact format_bonding_first_only_partial. Qed.
-(** the defect, universally: everything before a non-single descriptor is dropped *)
-Theorem C08_format_bonding_drops_prefix : forall L1 kl o L2, o <> 1%nat ->
-  fb_spec (L1 ++ (kl, o) :: L2) = fb_spec ((kl, o) :: L2).
-Proof. exact format_bonding_drops_prefix. Qed.
-Theorem C08_format_bonding_refuted : exists L : list (pystr * nat),
-  Forall (fun klo => (1 <= snd klo <= 3)%nat) L /\
-  exists out, format_bonding (map (fun klo => mk_descr (fst klo) (snd klo)) L) = Ok out /\ out <> fb_expected L
-              /\ out = S "=[$b]".
-Proof. exact format_bonding_refuted. Qed.
+
+(** descriptor ROUND TRIP, unbounded: for every organic-subset atom [e] and every list L of descriptors
+    (kind in $ > < !, alphanumeric label, order 1..3, any length, any mixture of orders) the text
+    e ++ format_bonding(L) is read by the strip model as clean text [e] with exactly L on atom 0.
+    Writer half: this component (generated code); reader half: Frag.FragProofs.strip_correct (the model
+    StripImpl is tied to read_fragments.py by the strip component's own correspondence check). *)
+Theorem C08_format_strip_roundtrip : forall fo e (L : list dspec),
+  str_in e organic_atoms = true -> forallb d_ok L = true ->
+  exists fb, format_bonding (map d_stored L) = Ok fb /\
+             strip_bonding_descriptors fo (e ++ fb)
+             = Ok (e, fold_left (fun d x => nd_append 0 (d_stored x) d) L [], [], []).
+Proof. exact format_strip_roundtrip. Qed.
+Theorem C08_descriptors_on_atom0 : forall L : list dspec, L <> [] ->
+  fold_left (fun d x => nd_append 0 (d_stored x) d) L [] = [(0%nat, map d_stored L)].
+Proof. exact descs_on_atom0. Qed.
+
 Example C08_nonvacuous :
-  format_bonding [S "$a1"; S "$b2"] = Ok (S "=[$b]") /\ format_bonding [S "$2"; S ">x1"] = Ok (S "=[$][>x]")
-  /\ format_bonding [S "$0"] = Ok (S ".[$]") /\ format_bonding [S "$"] = Err EValue /\ format_bonding [S "$7"] = Err EKey.
+  format_bonding [S "$a1"; S "$b2"] = Ok (S "[$a]=[$b]") /\ format_bonding [S "$2"; S ">x1"] = Ok (S "=[$][>x]")
+  /\ format_bonding [S "$0"] = Ok (S ".[$]") /\ format_bonding [S "$"] = Err EValue /\ format_bonding [S "$7"] = Err EKey
+  /\ format_bonding [S "$3"; S "<1"; S "!A2"] = Ok (S "#[$][<]=[!A]").
 Proof. exact format_bonding_examples. Qed.
+Example C08_roundtrip_nonvacuous :
+  strip_bonding_descriptors (fun _ => None) (S "C[$a]=[$b]#[<]") = Ok (S "C", [(0%nat, [S "$a1"; S "$b2"; S "<3"])], [], []).
+Proof. exact format_strip_example. Qed.
 
 Print Assumptions C08_format_bonding_spec.
 Print Assumptions C08_format_bonding_order1.
 Print Assumptions C08_format_bonding_single.
-Print Assumptions C08_format_bonding_first_only_partial.
-Print Assumptions C08_format_bonding_drops_prefix.
-Print Assumptions C08_format_bonding_refuted.
+Print Assumptions C08_format_strip_roundtrip.
+Print Assumptions C08_descriptors_on_atom0.
